@@ -74,8 +74,13 @@ def reference(src, xs):
     outs.append((0, [v[i] for i in sg["outputs"]]))
     reference.loose = it.loose
     if it.ambiguous:
-        v = tflinterp.Interp(src, 1).run(dict(zip(sg["inputs"], xs)))
-        outs.append((1, [v[i] for i in sg["outputs"]]))
+        bits = it.ambiguous_bits
+        for mode in (1, 2, 3):
+            if mode & ~bits:
+                continue  # that ambiguity did not occur in this network
+            it2 = tflinterp.Interp(src, mode)
+            v = it2.run(dict(zip(sg["inputs"], xs)))
+            outs.append((mode, [v[i] for i in sg["outputs"]]))
     return outs
 
 
